@@ -427,6 +427,10 @@ func genC19(r *rand.Rand, t *Trace, thorough bool) {
 			if r.Intn(4) == 0 {
 				in[i].Score = float64(r.Intn(3))
 			}
+			if it%5 == 1 && in[i].ID%3 == 0 {
+				// an id all of whose scores are the lowest there is (or none at all): it is still kept, once
+				in[i].Score = []float64{math.Inf(-1), math.Inf(-1), math.NaN(), math.Inf(1)}[int(in[i].ID/3)%4]
+			}
 			c.U(uint64(in[i].ID)).F64(in[i].Score)
 		}
 		out := comet.VerifMergeResults(in)
